@@ -1,4 +1,5 @@
 //! C09 — the PEP 440 parser accepts exactly PEP 440 and prints the normal form (DESIGN.md §6 C09).
+use crate::cli;
 use crate::gens;
 use crate::gens::pep::{PepV, Spelling};
 use crate::oracle::pep440 as opep;
@@ -156,6 +157,29 @@ pub fn mutate(base: BoxedStrategy<String>) -> BoxedStrategy<String> {
 }
 
 /// the structured generator and the oracle agree on what was generated (guards the generator)
+
+/// `zerv check --format pep440` in-process: verdict and reported normal form against the
+/// independent oracle (the report must say "normalized" exactly when the input is not its own
+/// normal form)
+fn check_report(s: &String, cx: &mut Cx) -> Res {
+    let want = opep::parse(s).map(|p| (opep::numbers_fit_u32(&p), opep::normal_form(&p)));
+    let r = cli::check(&cli::sv(&["--format", "pep440", "--", s]));
+    cx.note(|| format!("{s:?} -> {}", r.describe().chars().take(100).collect::<String>()));
+    match (&r, &want) {
+        (cli::Run::Panic(p), _) => fail(format!("zerv check panicked on {s:?}: {p}")),
+        (cli::Run::Ok(t), Some((_, nf))) => {
+            cx.nt_if(nf != s);
+            cx.label(if nf == s { "already-normal" } else { "not-normal" });
+            let expect = if nf == s { format!("Version: {s}\n✓ Valid PEP440 format") } else { format!("Version: {s}\n✓ Valid PEP440 format (normalized: {nf})") };
+            ensure!(t.trim_end() == expect, "zerv check reports {:?} for {s:?}; the PEP 440 normal form is {nf:?}, so the report should be {expect:?}", t.trim_end());
+            Ok(())
+        }
+        (cli::Run::Ok(t), None) => fail(format!("zerv check accepts {s:?}, which is not PEP 440: {t:?}")),
+        (_, Some((true, _))) => fail(format!("zerv check rejects the valid PEP 440 version {s:?}: {}", r.describe())),
+        _ => Ok(()),
+    }
+}
+
 fn check_structured(c: &(PepV, Spelling, bool), cx: &mut Cx) -> Res {
     let (p, sp, ext) = c;
     let s = gens::pep::spell(p, sp, *ext);
@@ -230,6 +254,20 @@ pub fn property() -> Property {
         },
     )
     .floor(0.3);
+    let report = RandomSub::<String>::new(
+        "check-report",
+        (60_000, 1_200_000),
+        |_| {
+            prop_oneof![
+                3 => (gens::pep::pepv(4), 0u8..10, 0usize..12).prop_map(|(p, kind, k)| gens::pep::one_deviation(&p, kind, k)),
+                2 => spelled(),
+                1 => mutate(spelled()),
+            ]
+            .boxed()
+        },
+        check_report,
+    )
+    .floor(0.3);
     let l2 = RandomSub::<String>::new(
         "cli-check",
         (400, 6_000),
@@ -266,7 +304,7 @@ pub fn property() -> Property {
             "a grammar-valid string with a number above u32 may be rejected (range limit) but must never be accepted and printed as another number",
             "strings with surrounding whitespace are outside the statement (they are simply judged by the grammar: rejected)",
         ],
-        subs: vec![e1.boxed(), e2.boxed(), r0.boxed(), r1.boxed(), r2.boxed(), long.boxed(), l2.boxed()],
+        subs: vec![e1.boxed(), e2.boxed(), r0.boxed(), r1.boxed(), r2.boxed(), long.boxed(), report.boxed(), l2.boxed()],
         known_repro: vec![],
     }
 }
